@@ -10,8 +10,8 @@
      sbcW_res / _C / _V      the same for SBC, as functions of the uncomplemented operand b
      N and Z are functions of the result only (nz_N8 ... below).
 
-   Proved here: 8-bit (binary and decimal, by exhaustion over the 2^17 triples (a, b, c)) and 16-bit binary
-   (algebraically).  16-bit decimal is in C01AdcDec.v.
+   Definitions only.  C01Adc8.v: 8-bit, binary and decimal, by exhaustion over the 2^17 triples (a, b, c).
+   C01Adc16.v: 16-bit binary, algebraically.  C01AdcDec.v: 16-bit decimal, digit by digit.
 
    snapshot_dep: (none: no generated function is unfolded in this file) *)
 From Coq Require Import ZArith NArith List Bool Lia.
@@ -44,31 +44,42 @@ Definition sbc8_sum (a d c : Z) (dec : bool) : Z :=
     if w_leb s 255 then w_and (add16 s 160) 255 else s
   else add16 (add16 a d) c.
 
+(* 16 bits: the decimal path is a chain of four digit stages (the carry into digit i sits in bit 4i of the sum) *)
+Definition adc_d0 (a d c : Z) : Z :=
+  let s := add32 (add32 (w_and a 15) (w_and d 15)) c in
+  let s := if w_ltb 9 s then add32 s 6 else s in
+  if w_ltb 15 s then add32 (w_and s 15) 16 else s.
+Definition adc_d1 (a d s : Z) : Z :=
+  let s := add32 s (add32 (w_and a 240) (w_and d 240)) in
+  let s := if w_ltb 159 s then add32 s 96 else s in
+  if w_ltb 255 s then add32 (w_and s 255) 256 else s.
+Definition adc_d2 (a d s : Z) : Z :=
+  let s := add32 s (add32 (w_and a 3840) (w_and d 3840)) in
+  let s := if w_ltb 2559 s then add32 s 1536 else s in
+  if w_ltb 4095 s then add32 (w_and s 4095) 4096 else s.
+Definition adc_d3 (a d s : Z) : Z :=
+  let s := add32 s (add32 (w_and a 61440) (w_and d 61440)) in
+  if w_ltb 40959 s then add32 s 24576 else s.
+
 Definition adc16_sum (a d c : Z) (dec : bool) : Z :=
-  if dec then
-    let s := add32 (add32 (w_and a 15) (w_and d 15)) c in
-    let s := if w_ltb 9 s then add32 s 6 else s in
-    let s := if w_ltb 15 s then add32 (w_and s 15) 16 else s in
-    let s := add32 s (add32 (w_and a 240) (w_and d 240)) in
-    let s := if w_ltb 159 s then add32 s 96 else s in
-    let s := if w_ltb 255 s then add32 (w_and s 255) 256 else s in
-    let s := add32 s (add32 (w_and a 3840) (w_and d 3840)) in
-    let s := if w_ltb 2559 s then add32 s 1536 else s in
-    let s := if w_ltb 4095 s then add32 (w_and s 4095) 4096 else s in
-    let s := add32 s (add32 (w_and a 61440) (w_and d 61440)) in
-    if w_ltb 40959 s then add32 s 24576 else s
+  if dec then adc_d3 a d (adc_d2 a d (adc_d1 a d (adc_d0 a d c)))
   else add32 (add32 a d) c.
 
+Definition sbc_d0 (a d c : Z) : Z :=
+  let s := add32 (add32 (w_and a 15) (w_and d 15)) c in
+  if w_leb s 15 then w_and (add32 s 10) 15 else s.
+Definition sbc_d1 (a d s : Z) : Z :=
+  let s := add32 s (add32 (w_and a 240) (w_and d 240)) in
+  if w_leb s 255 then w_and (add32 s 160) 255 else s.
+Definition sbc_d2 (a d s : Z) : Z :=
+  let s := add32 s (add32 (w_and a 3840) (w_and d 3840)) in
+  if w_leb s 4095 then w_and (add32 s 2560) 4095 else s.
+Definition sbc_d3 (a d s : Z) : Z :=
+  let s := add32 s (add32 (w_and a 61440) (w_and d 61440)) in
+  if w_leb s 65535 then w_and (add32 s 40960) 65535 else s.
+
 Definition sbc16_sum (a d c : Z) (dec : bool) : Z :=
-  if dec then
-    let s := add32 (add32 (w_and a 15) (w_and d 15)) c in
-    let s := if w_leb s 15 then w_and (add32 s 10) 15 else s in
-    let s := add32 s (add32 (w_and a 240) (w_and d 240)) in
-    let s := if w_leb s 255 then w_and (add32 s 160) 255 else s in
-    let s := add32 s (add32 (w_and a 3840) (w_and d 3840)) in
-    let s := if w_leb s 4095 then w_and (add32 s 2560) 4095 else s in
-    let s := add32 s (add32 (w_and a 61440) (w_and d 61440)) in
-    if w_leb s 65535 then w_and (add32 s 40960) 65535 else s
+  if dec then sbc_d3 a d (sbc_d2 a d (sbc_d1 a d (sbc_d0 a d c)))
   else add32 (add32 a d) c.
 
 (* the flag computations shared by op_adc and op_sbc (d = the second addend as the routine sees it) *)
